@@ -155,7 +155,7 @@ impl Evidence {
         let first = !path.exists() || !self.violations.iter().any(|v| v.get("replay").and_then(|r| r.as_str()) == Some(&path.display().to_string()));
         let _ = std::fs::write(&path, serde_json::to_string_pretty(&doc).unwrap());
         if first {
-            println!("VIOLATION property={} replay={}", self.property, path.display());
+            crate::out::line(&format!("VIOLATION property={} replay={}", self.property, path.display()));
             eprintln!("  {}: {}", sig, what);
         }
         if self.violations.len() < 50 {
@@ -164,7 +164,7 @@ impl Evidence {
     }
 
     pub fn known(&mut self, finding_id: &str, what: &str) {
-        println!("KNOWN-FINDING: property={} {} {}", self.property, finding_id, what);
+        crate::out::line(&format!("KNOWN-FINDING: property={} {} {}", self.property, finding_id, what));
         self.known_findings.push(format!("{} {}", finding_id, what));
     }
 
